@@ -318,7 +318,8 @@ def fam_shape(tier, kind=R):
             yield c("repeat", "np.repeat(x,[1,2..],axis=0) array repeats", lambda np, x: np.repeat(x, list(range(1, x.shape[0] + 1)), axis=0), [kind(*s)])
             yield c("repeat", "np.repeat(x,[2],axis=0) len-1 list repeats", lambda np, x: np.repeat(x, [2], axis=0), [kind(*s)])
     for s, tgts in [((2, 3), [(2, 3), (2, 2, 3), (1, 2, 3)]), ((1, 3), [(2, 3), (1, 3), (2, 2, 3)]), ((3,), [(2, 3), (3,)]), ((), [(2,), (2, 2), ()]),
-                    ((2, 1), [(2, 3), (2, 1)]), ((1, 1), [(2, 3)]), ((1,), [(3,), (2, 3)])]:
+                    ((2, 1), [(2, 3), (2, 1), (1, 2, 3)]), ((1, 1), [(2, 3), (1, 1, 3), (1, 2, 2)]), ((1,), [(3,), (2, 3), (1, 3), (1, 1, 2)]),
+                    ((1, 3), [(1, 2, 3), (1, 1, 3)]), ((3, 1), [(1, 3, 2), (3, 3, 2)])]:
         for t in tgts:
             yield c("broadcast_to", "np.broadcast_to(x,%r)" % (t,), lambda np, x, _t=t: np.broadcast_to(x, _t), [kind(*s)])
     for n in ("atleast_1d", "atleast_2d", "atleast_3d"):
@@ -326,6 +327,14 @@ def fam_shape(tier, kind=R):
             yield c(n, "np.%s(x)" % n, lambda np, x, _n=n: getattr(np, _n)(x), [kind(*s)])
         yield c(n, "np.%s(scalar)" % n, lambda np, x, _n=n: getattr(np, _n)(x), [SC if kind is R else CSC])
         yield c(n, "np.%s(x,y)[1]" % n, lambda np, x, y, _n=n: getattr(np, _n)(x, y)[1], [kind(2), kind(2)], 1)
+        # several arrays in one call: one output per input (the rules refuse this today; a rule that accepts it must
+        # give every output the tangent / cotangent of ITS input only)
+        for s in [(2,), (), (2, 3)]:
+            for wrt in (0, 1):
+                for pick in (0, 1):
+                    yield c(n, "np.%s(x,y)[%d]" % (n, pick), lambda np, x, y, _n=n, _p=pick: getattr(np, _n)(x, y)[_p] * 3.0, [kind(*s), kind(*s)], wrt)
+                yield c(n, "np.%s(x,y,x*y): sin of one output times the others" % n,
+                        lambda np, x, y, _n=n: (lambda o: np.sin(o[0]) * o[2] + 2.0 * o[1])(getattr(np, _n)(x, y, x * y)), [kind(*s), kind(*s)], wrt)
     # split family (one piece of the result is selected; the others are dead)
     for n, args, s in [("split", (3,), (3, 2)), ("split", ([1],), (3, 2)), ("split", ([1, 2],), (3,)), ("array_split", (2,), (3, 2)),
                        ("vsplit", (2,), (2, 3)), ("hsplit", (3,), (2, 3)), ("hsplit", ([1],), (3,)), ("dsplit", (2,), (1, 2, 2))]:
@@ -700,7 +709,31 @@ def _ext_prims():
 
     defvjp(qphase, lambda ans, x, t: lambda g: g * 1j, None)
     defjvp(qphase, lambda g, ans, x, t: g * 1j, None)
-    _EXT.update(qdot=qdot, qscale=qscale, qphase=qphase)
+    # f(x, s) = s * exp(x) registered through each of the registration APIs, every rule written IN TERMS OF THE OUTPUT
+    # `ans` (d/dx = ans, d/ds = ans / s): under nested differentiation `ans` must reach the rule as seen at that level
+    from autograd.extend import defjvp_argnums, defvjp_argnum, defvjp_argnums
+    from autograd.core import defjvp_argnum
+    import autograd.numpy as anp
+
+    def mk():
+        @primitive
+        def q(x, s_):
+            return s_ * onp.exp(x)
+
+        return q
+
+    qexp_pos, qexp_argnum, qexp_argnums = mk(), mk(), mk()
+    vx = lambda ans, x, s_: lambda g: g * ans
+    vs_ = lambda ans, x, s_: lambda g: anp.sum(g * ans) / s_
+    jx = lambda t, ans, x, s_: t * ans
+    js = lambda t, ans, x, s_: t * ans / s_
+    defvjp(qexp_pos, vx, vs_)
+    defjvp(qexp_pos, jx, js)
+    defvjp_argnum(qexp_argnum, lambda argnum, ans, args, kwargs: (vx, vs_)[argnum](ans, *args))
+    defjvp_argnum(qexp_argnum, lambda argnum, t, ans, args, kwargs: (jx, js)[argnum](t, ans, *args))
+    defvjp_argnums(qexp_argnums, lambda argnums, ans, args, kwargs: lambda g: tuple((vx, vs_)[a](ans, *args)(g) for a in argnums))
+    defjvp_argnums(qexp_argnums, lambda argnums, ts, ans, args, kwargs: sum((jx, js)[a](t, ans, *args) for a, t in zip(argnums, ts)))
+    _EXT.update(qdot=qdot, qscale=qscale, qphase=qphase, qexp_pos=qexp_pos, qexp_argnum=qexp_argnum, qexp_argnums=qexp_argnums)
     return _EXT
 
 
@@ -711,6 +744,25 @@ def fam_extension(tier, kind=R):
         yield Config("ext-none", "user primitive qscale(x[3], s) -> vector, scalar s registered as None", lambda np, x, s_: E["qscale"](x, s_), [kind(3), SC], k)
         yield Config("ext-none", "user primitive qscale(x[2,2], s[2]) None position broadcastable to the output", lambda np, x, s_: E["qscale"](x, s_), [kind(2, 2), kind(2)], k)
     if kind is R:
+        import autograd
+
+        X0 = onp.array([0.3, -0.5])
+        for api in ("pos", "argnum", "argnums"):
+            q = E["qexp_" + api]
+            how = {"pos": "defvjp / defjvp", "argnum": "defvjp_argnum / defjvp_argnum", "argnums": "defvjp_argnums / defjvp_argnums"}[api]
+            for k in (0, 1):
+                yield Config("ext-ans", "user primitive s*exp(x) via %s, rules written in terms of ans" % how, lambda np, x, s_, _q=q: _q(x, s_) if np is not onp else s_ * onp.exp(x), [R(2), SC], k)
+            yield Config("ext-ans", "sin(x) * [s*exp(x) via %s] with x in both factors" % how, lambda np, x, _q=q: np.sin(x) * (_q(x, 2.0) if np is not onp else 2.0 * onp.exp(x)), [R(2)], 0)
+            # nested: the inner derivative (whose rule multiplies by ans) as a function of the OUTER variable
+            for iname, inner in (("reverse", lambda f, at: autograd.elementwise_grad(f)(at)), ("forward", lambda f, at: autograd.make_jvp(f)(at)(onp.ones(2))[1])):
+                c = Config("ext-ans", "NESTED d/dx [s*exp(x) via %s] (inner %s mode) as a function of the outer s" % (how, iname),
+                           lambda np, s_, _q=q, _in=inner: _in(lambda x: _q(x, s_), X0), [SC], 0)
+                c.oracle = lambda np, s_: s_ * onp.exp(X0)
+                yield c
+                c = Config("ext-ans", "NESTED x * d/dy [2*exp(y) via %s] at y = x (inner %s mode): second derivative through ans" % (how, iname),
+                           lambda np, x, _q=q, _in=inner: x * _in(lambda y: _q(y, 2.0), x), [R(2)], 0)
+                c.oracle = lambda np, x: x * 2.0 * np.exp(x)
+                yield c
         yield Config("ext-none", "user primitive qphase(x[2], t[3]) complex output, real t registered as None", lambda np, x, t: E["qphase"](x, t), [R(2), R(3)], 1)
         yield Config("ext-none", "sum(qscale(x, s)) + s**2 : None position also used elsewhere", lambda np, x, s_: np.sum(E["qscale"](x, s_)) + s_ ** 2, [R(3), SC], 1)
 
@@ -1231,6 +1283,14 @@ def index_grid(tier):
 # containers (C12-A)
 
 
+def _prepend_loop(np, t):
+    """(h2, h1) + t[1:] built by two successive single prepends and one double prepend of plain tuples of traced values"""
+    m = t[1:]
+    m = (np.sin(t[0]),) + m
+    m = (t[0] * 2.0, np.cos(t[1])) + m
+    return m
+
+
 def container_grid(tier):
     import autograd.builtins as ab
 
@@ -1256,6 +1316,15 @@ def container_grid(tier):
     c("tuple negative index", lambda np, t: np.sum(t[-1] * t[-2]), [(R(2), R(2), R(2))])
     c("list concatenation + iteration", lambda np, l, k: sum(np.sum(e * float(i + 1)) for i, e in enumerate(l + [k])), [[R(2), R(2)], R(2)])
     c("reflected concatenation", lambda np, l, k: sum(np.sum(e * float(i + 1)) for i, e in enumerate((k,) + l)), [(R(2), R(2)), R(2)])
+    # several values prepended / appended at once, each consumed differently (every element has its own slot)
+    c("TWO traced values prepended to a traced tuple", lambda np, t, k: sum(np.sum(e * float(i * i + 1)) for i, e in enumerate((np.sin(k), k * 2.0) + t)), [(R(2), R(2)), R(2)], 0)
+    c("TWO traced values prepended to a traced tuple", lambda np, t, k: sum(np.sum(e * float(i * i + 1)) for i, e in enumerate((np.sin(k), k * 2.0) + t)), [(R(2), R(2)), R(2)], 1)
+    c("[traced, const, traced] + traced list, diamond", lambda np, l: (lambda m: np.sum(m[0] * m[3]) + np.sum(m[1] * m[2] * m[4]) * 3.0)([np.cos(l[0]), onp.array([2.0, -1.0]), l[1] * l[0]] + l), [[R(2), R(2)]])
+    c("values prepended one by one in a loop to a slice of the argument", lambda np, t: (lambda m: sum(np.sum(e) * float(i + 1) for i, e in enumerate(m)))(_prepend_loop(np, t)), [(R(2), R(2), R(2))])
+    c("THREE traced values appended to a traced list", lambda np, l, k: sum(np.sum(e * float(i * i + 1)) for i, e in enumerate(l + [np.sin(k), k * 2.0, k * k])), [[R(2), R(2)], R(2)], 0)
+    c("THREE traced values appended to a traced list", lambda np, l, k: sum(np.sum(e * float(i * i + 1)) for i, e in enumerate(l + [np.sin(k), k * 2.0, k * k])), [[R(2), R(2)], R(2)], 1)
+    c("prepend and append around a slice", lambda np, t, k: sum(np.sum(e * float(2 * i + 1)) for i, e in enumerate((k, k * k) + t[1:] + (np.exp(k), t[0] * k))), [(R(2), R(2), R(2)), R(2)], 0)
+    c("prepend and append around a slice", lambda np, t, k: sum(np.sum(e * float(2 * i + 1)) for i, e in enumerate((k, k * k) + t[1:] + (np.exp(k), t[0] * k))), [(R(2), R(2), R(2)), R(2)], 1)
     c("tuple consumed WHOLE three times (three dense container cotangents)", lambda np, t, k: sum(np.sum((t + (k,))[0] * (t + (k,))[1]) * float(i + 1) for i in range(3)), [(R(2), R(2)), R(2)])
     c("list consumed WHOLE four times", lambda np, l, k: sum(np.sum(e) * float(j + 1) for i in range(4) for j, e in enumerate(l + [k * float(i)])), [[R(2), R(2)], R(2)])
     c("concatenation of two traced lists", lambda np, l: sum(np.sum(e * float(i + 1)) for i, e in enumerate(l + l)), [[R(2), R(2)]])
@@ -1270,6 +1339,17 @@ def container_grid(tier):
     c("dict of scalars: whole-dict uses through values() twice, then key reads", lambda np, d: sum(v * float(i + 1) for i, v in enumerate(d.values())) + sum(v * v for v in d.values()) + d["a"] * np.cos(d["b"]), [{"a": SC, "b": SC}])
     c("tuple of scalars consumed WHOLE four times (dense container cotangents only)", lambda np, t, k: sum((t + (k,))[0] * (t + (k,))[1] * float(i + 1) + (t + (k,))[2] for i in range(4)), [(SC, SC), SC])
     c("list of a scalar and an array placed three times in a constructor", lambda np, l: (lambda a: sum(a[i][0] * float(i + 1) + np.sum(a[i][1]) for i in range(3)))([l, l, l]), [[SC, R(2)]])
+    # type queries with Python's OWN isinstance against autograd's list / tuple / dict classes (what the tutorial recommends)
+    AT = lambda np: tuple if np is onp else ab.tuple
+    AL = lambda np: list if np is onp else ab.list
+    AD = lambda np: dict if np is onp else ab.dict
+    import builtins as _b
+
+    c("builtin isinstance(t, autograd tuple) selects the branch", lambda np, t: np.sum(t[0] * t[1]) * (2.0 if _b.isinstance(t, AT(np)) else 5.0) + (7.0 if _b.isinstance(t, AL(np)) else 1.0) * np.sum(t[1]), [(R(2), R(2))])
+    c("builtin isinstance(l, autograd list) selects the branch", lambda np, l: np.sum(l[0] * l[1]) * (2.0 if _b.isinstance(l, AL(np)) else 5.0) + (7.0 if _b.isinstance(l, AD(np)) else 1.0) * np.sum(l[1]), [[R(2), R(2)]])
+    c("builtin isinstance(d, autograd dict) selects the branch", lambda np, d: np.sum(d["a"] * d["b"]) * (2.0 if _b.isinstance(d, AD(np)) else 5.0) + (7.0 if _b.isinstance(d, AT(np)) else 1.0) * np.sum(d["b"]), [{"a": R(2), "b": R(2)}])
+    c("builtin isinstance on a NESTED traced container and on a slice of it", lambda np, t: np.sum(t[1][0]) * (2.0 if _b.isinstance(t[1], AL(np)) else 5.0) + np.sum(t[0]) * (3.0 if _b.isinstance(t[:1], AT(np)) else 11.0) + (0.0 if _b.isinstance(t[0], (AT(np), AL(np), AD(np))) else 1.0) * np.sum(t[1][1]), [(R(2), [R(2), R(2)])])
+    c("autograd isinstance / type queries on traced containers", lambda np, t: np.sum(t[0]) * (2.0 if (isinstance if np is onp else ab.isinstance)(t, tuple) else 5.0) + np.sum(t[1][0]) * (3.0 if (isinstance if np is onp else ab.isinstance)(t[1], list) else 7.0) + (4.0 if (type if np is onp else ab.type)(t) is tuple else 9.0) * np.sum(t[1][0]), [(R(2), [R(2)])])
     c("len / in / unpacking", lambda np, t: (lambda a, b: np.sum(a * b) * len(t))(*t), [(R(2), R(2))])
     c("wrt second container argument", lambda np, x, t: np.sum(x * t[0]) + t[1] * np.sum(x), [R(2), (R(2), SC)], 1)
     c("wrt array next to a container", lambda np, x, t: np.sum(x * t[0]) + t[1] * np.sum(x), [R(2), (R(2), SC)], 0)
